@@ -111,7 +111,12 @@ pub fn run(ctx: &Ctx) -> i32 {
         let text = match res {
             Ok(t) => t,
             Err(e) => {
-                acc.inconclusive(format!("generate_report helper: {}", e));
+                if e.starts_with("REPORT-NOT-WRITTEN") {
+                    acc.eval();
+                    acc.violation("report-not-written", json!({"v": map_json(&v), "o": map_json(&o), "q": map_json(&q), "detail": e}));
+                } else {
+                    acc.inconclusive(format!("generate_report helper: {}", e));
+                }
                 return;
             }
         };
